@@ -116,6 +116,9 @@ type Type struct {
 	// named int64 type that is an enum when annotated with its own name (the annotation alone decides
 	// the wire type); a string / binary on a named string / byte-slice type.
 	Named bool
+	// GoInt: the Go representation is the platform int (KI64: a plain int; KI64+Named: the named int
+	// type used as plain i64; KEnum: the named int type annotated with its own name) instead of int64.
+	GoInt bool
 }
 
 type Field struct {
@@ -158,6 +161,9 @@ func (s *Struct) SortFields() {
 func (t *Type) Annot() string {
 	switch t.Kind {
 	case KEnum:
+		if t.GoInt {
+			return "IntEnum"
+		}
 		return "Enum"
 	case KStruct:
 		if t.St.Name != "" {
